@@ -103,6 +103,23 @@ func (l *logI) WrapStreamingHandler(next connect.StreamingHandlerFunc) connect.S
 	}
 }
 
+// zeroI is an interceptor whose *value* is the zero value of its (struct)
+// type: it keeps its state elsewhere (here: a package-level logger with id 77),
+// as stateless interceptors do.  It is not nil.
+type zeroI struct{}
+
+var c16ZeroLogger *logI
+
+func (zeroI) WrapUnary(next connect.UnaryFunc) connect.UnaryFunc {
+	return c16ZeroLogger.WrapUnary(next)
+}
+func (zeroI) WrapStreamingClient(next connect.StreamingClientFunc) connect.StreamingClientFunc {
+	return c16ZeroLogger.WrapStreamingClient(next)
+}
+func (zeroI) WrapStreamingHandler(next connect.StreamingHandlerFunc) connect.StreamingHandlerFunc {
+	return c16ZeroLogger.WrapStreamingHandler(next)
+}
+
 // c16Case: Mask says which positions hold a nil; Cuts which gaps start a new
 // WithInterceptors group; Empty where an empty group is inserted (-1 none);
 // Bundles which group gaps start a new wrapper bundle; Wrap the wrapper of
@@ -129,6 +146,9 @@ type c16Case struct {
 	// streaming calls a UnaryInterceptorFunc is a documented no-op, so the
 	// reference onion then consists of the other positions).
 	FuncMask int `json:"func_mask,omitempty"`
+	// ZeroPos (1-based, 0 = none): that position holds zeroI{}, an interceptor
+	// that is the zero value of a struct type (id 77 in the log).
+	ZeroPos int `json:"zero_pos,omitempty"`
 	// SharedLast: the LAST group is one option value that was first applied,
 	// behind a different leading interceptor, by another client and handler.
 	SharedLast bool `json:"shared_last,omitempty"`
@@ -144,6 +164,9 @@ func (k c16Case) key() string {
 	}
 	if k.FuncMask != 0 {
 		side += fmt.Sprintf("/funcmask%b", k.FuncMask)
+	}
+	if k.ZeroPos != 0 {
+		side += fmt.Sprintf("/zerovalue@%d", k.ZeroPos)
 	}
 	if k.SharedLast {
 		side += "/sharedlast"
@@ -166,6 +189,12 @@ func (k c16Case) build(log *[]string) (clientOpts []connect.ClientOption, handle
 			items[i] = l
 			if k.FuncTypes {
 				items[i] = connect.UnaryInterceptorFunc(l.WrapUnary)
+			}
+			if k.ZeroPos == i+1 {
+				c16ZeroLogger = &logI{id: 77, log: log}
+				items[i] = zeroI{}
+				flat = append(flat, 77)
+				continue
 			}
 			if k.FuncMask&(1<<i) != 0 {
 				items[i] = connect.UnaryInterceptorFunc(l.WrapUnary)
@@ -695,6 +724,16 @@ func TestC16(t *testing.T) {
 						kf.FuncTypes = true
 						c.Case(kf.key(), nonNil > 0)
 						Bubble(t, func() { c16Check(c, kf) })
+					}
+					// an interceptor that is the zero value of a struct type, at every position
+					for zp := 1; zp <= k.N; zp++ {
+						if k.NilMask&(1<<(zp-1)) != 0 {
+							continue
+						}
+						kz := k
+						kz.ZeroPos = zp
+						c.Case(kz.key(), true)
+						Bubble(t, func() { c16Check(c, kz) })
 					}
 					// every mix of the two interceptor types, on every kind of call
 					for fm := 1; fm < (1<<k.N)-1; fm++ {
